@@ -82,7 +82,7 @@ func VerifC08Crash() {
 	VerifCrashPoint = func(string) { verifFsHooked() }
 
 	// recovery must terminate: a queue spinning in its I/O loop is a hang
-	verifStepLimit(2000000)
+	verifStepLimit(300000)
 	q2 := NewDiskQueue("q", snap, maxBytes, syncEvery, time.Hour).(*DiskQueue)
 	var D [][]byte
 	for len(D) <= len(E)+1 {
